@@ -336,7 +336,6 @@ func headerName(e ast.Expr) string {
 	return "unknownShape:" + nsrc(e)
 }
 
-func factsCache()      {}
 func factsCompress()   {}
 func factsServer()     {}
 func factsMain()       {}
@@ -595,4 +594,76 @@ func factsResponse() {
 		}
 	}
 	defStr("cacheableProfile", prof)
+}
+
+// ---------------------------------------------------------------- cache/http_cache.go
+func factsCache() {
+	section("cache/http_cache.go")
+	f := parse("cache/http_cache.go")
+	if v, ok := constInt(f, "defaultHitForPassSeconds"); ok {
+		defInt("defaultHitForPassSeconds", v)
+	} else {
+		defInt("defaultHitForPassSeconds", -1)
+	}
+	// Status iota order
+	var order []string
+	if f != nil {
+		for _, d := range f.Decls {
+			gd, ok := d.(*ast.GenDecl)
+			if !ok || gd.Tok != token.CONST {
+				continue
+			}
+			isStatus := false
+			for _, sp := range gd.Specs {
+				vs := sp.(*ast.ValueSpec)
+				if vs.Type != nil && nsrc(vs.Type) == "Status" && len(vs.Values) == 1 && nsrc(vs.Values[0]) == "iota" {
+					isStatus = true
+				}
+				if isStatus {
+					for _, nm := range vs.Names {
+						order = append(order, nm.Name)
+					}
+				}
+			}
+		}
+	}
+	defStrList("statusOrder", order)
+	// HitForPass: the guard that applies the default
+	guard := "unknownShape:HitForPass guard"
+	if fd := funcDecl(f, "httpCache", "HitForPass"); fd != nil {
+		ast.Inspect(fd.Body, func(n ast.Node) bool {
+			is, ok := n.(*ast.IfStmt)
+			if ok && len(is.Body.List) == 1 && nsrc(is.Body.List[0]) == "ttl=defaultHitForPassSeconds" {
+				guard = nsrc(is.Cond)
+			}
+			return true
+		})
+	}
+	defStr("hitForPassGuard", guard)
+	// does a woken waiter read entry fields (hc.<field>) after the channel receive in Get?
+	reread := true
+	shape := "unknownShape:Get"
+	if fd := funcDecl(f, "httpCache", "Get"); fd != nil {
+		shape = "ok"
+		reread = false
+		afterRecv := false
+		ast.Inspect(fd.Body, func(n ast.Node) bool {
+			switch x := n.(type) {
+			case *ast.UnaryExpr:
+				if x.Op == token.ARROW {
+					afterRecv = true
+				}
+			case *ast.SelectorExpr:
+				if id, ok := x.X.(*ast.Ident); ok && id.Name == "hc" && afterRecv {
+					switch x.Sel.Name {
+					case "status", "response", "createdAt", "expiredAt", "chanList":
+						reread = true
+					}
+				}
+			}
+			return true
+		})
+	}
+	defStr("getShape", shape)
+	defBool("waiterRereadsEntry", reread)
 }
